@@ -619,6 +619,19 @@ def check_c03(prop, tier, seed, devices):
             body = [instr(mn, *(ops_pre + [ARG(0)]))]
             prog = [line("macro", n="go")] + body + [line("endm")] + [instr("nop") for _ in range(6)] + [instr("nop", lab="here"), call("go", E(copy.deepcopy(tgt))), instr("ret")]
             cases.append(Case(prog, tag="macro-target"))
+    for gap in (2, 4, 0x20):
+        for kind in (("rjmp", None), ("brne", None), ("rcall", None)):
+            mn, sbit = kind
+            vec = [line("macro", n="vector"), org(arg(0)), instr("rjmp", ARG(1)), line("endm")]
+            prog = vec + [instr(mn, E(sym("main")))] + [call("vector", E(gap * (i + 1)), E(sym("isr"))) for i in range(3)] + [instr("reti", lab="isr"), instr(mn, E(sym("isr")), lab="main"), instr("ret")]
+            cases.append(Case(prog, tag="macro-vector"))
+    for cs in ("upper", "mixed"):
+        for kind in (("rjmp", None), ("rcall", None), ("brne", None), ("brbs", 2), ("brbc", 5)):
+            mn, sbit = kind
+            ops_pre = [E(sbit)] if sbit is not None else []
+            for off in (-3, -1, 0, 2, 63, 64, -64, -65):
+                prog = [instr("nop") for _ in range(4)] + [instr(mn, *(ops_pre + [E(pc_target("pc", off))])), instr("ret")]
+                cases.append(Case(prog, tag="pc-case", spell=Spell(case=cs)))
     # out-of-range distances under devices whose flash is as small as the reach of rjmp: never wrapped around
     for devname in ("ATmega8", "ATtiny85", "ATtiny2313", "ATtiny13", "ATmega48"):
         for mn in ("rjmp", "rcall"):
@@ -881,6 +894,10 @@ def check_c10(prop, tier, seed, devices):
     hand += [[defr("tmp", 16), defr("tmp", 17), instr("ldi", E(sym("tmp")), E(1)), undef("tmp"), instr("nop")],
              [defr("tmp", 16), instr("ldi", E(sym("tmp")), E(1)), defr("tmp", 3), instr("mov", E(sym("tmp")), R(1)), instr("ldi", E(sym("tmp")), E(1))],
              [defr("tmp", 16), defr("tmp", 16), undef("tmp"), instr("inc", E(sym("tmp")))]]
+    # a variable assigned from the location counter, after placed items and after an origin
+    hand += [[instr("nop"), instr("nop"), setv("mark", sym("pc")), instr("ldi", R(16), E(sym("mark"))), setv("mark", binop("+", sym("pc"), lit(1))), data(2, E(sym("mark")))],
+             [data(2, E(10), E(20), E(30), lab="tab"), setv("tablen", binop("-", sym("pc"), sym("tab"))), instr("ldi", R(16), E(sym("tablen")))],
+             [instr("nop"), org(0x10), setv("at", sym("pc")), data(2, E(sym("at"))), seg("eeprom"), data(1, E(1), E(2)), setv("eat", sym("pc")), seg("code"), data(2, E(sym("eat")))]]
     # a reference in a condition to a name that is not known when the line is read fails the build
     hand += [[line("if", e=binop("==", sym("later"), lit(1))), instr("nop"), line("else"), instr("ret"), line("endif"), equ("later", 1), instr("ldi", R(17), E(sym("later")))],
              [line("if", e=sym("nothing")), instr("nop"), line("endif")],
@@ -1138,6 +1155,21 @@ def check_c08(prop, tier, seed, devices):
                 prog = [line("ifdef", n="NOPE", pfx=pfx), line("macro", n="m"), dict(line("if", e=binop("<", arg(1), lit(2))), cmt=cmt), instr("nop"), dict(line("endif"), cmt=cmt), line("endm"),
                         line("endif", pfx=pfx), instr("ret")]
                 cases.append(Case(prog, tag="unparsable-conditional"))
+    deep = lit(1)
+    for _ in range(70):
+        deep = par(deep)
+    chainy = lit(1)
+    for i in range(140):
+        chainy = binop("||", chainy, par(binop("==", sym("kk"), lit(i))))
+    for cond in (deep, chainy, un("-", deep)):
+        for pfx in (".", "#"):
+            for opener in (line("if", e=lit(0), pfx=pfx), line("ifdef", n="NOPE", pfx=pfx)):
+                prog = [copy.deepcopy(opener), line("if", e=copy.deepcopy(cond), pfx=pfx), instr("ldi", R(16), E(1)), line("else", pfx=pfx), instr("ldi", R(16), E(2)),
+                        line("endif", pfx=pfx), instr("ret"), line("else", pfx=pfx), instr("sleep"), line("endif", pfx=pfx), instr("nop")]
+                cases.append(Case(prog, tag="too-deep-conditional"))
+                prog = [copy.deepcopy(opener), instr("ret"), line("if", e=lit(1), pfx=pfx), instr("nop"), line("elif", e=copy.deepcopy(cond), pfx=pfx), instr("ret"),
+                        line("endif", pfx=pfx), line("endif", pfx=pfx), instr("sleep")]
+                cases.append(Case(prog, tag="too-deep-conditional"))
     # a macro definition inside a branch that is not assembled: its lines are passed over like any others, the conditional
     # directives among them count, whatever follows the directive word
     for outer in (0, 1):
@@ -1802,6 +1834,8 @@ def line_kind_programs():
     P.append(("dir.if0", [line("if", e=binop(">", lit(2), lit(0x10))), line("garbage", text="not ( assembly"), line("else"), instr("ldi", R(16), E(3)), line("endif")]))
     P.append(("dir.ifdef", [line("define", n="FLAG"), line("ifdef", n="FLAG"), instr("nop"), line("endif"), line("ifndef", n="FLAG"), instr("ret"), line("endif")]))
     P.append(("dir.macro", [line("macro", n="mm"), instr("ldi", ARG(0), E(binop("+", arg(1), lit(1)))), line("endm"), call("mm", R(16), E(0x10)), call("mm", R(17), E(binop("*", lit(2), lit(3))))]))
+    P.append(("dir.noop", [line("noop", text=".pragma option use core v1"), instr("ldi", R(16), E(1)), line("noop", text="#pragma AVRPART ADMIN PART_NAME ATmega8"),
+                           line("noop", text=".pragma"), instr("ret"), line("noop", text="#pragma partinc 0")]))
     P.append(("dir.message", [line("message", txt="hello msg"), instr("nop"), line("warning", txt="warn msg")]))
     P.append(("dir.device", [line("device", n="ATmega48"), seg("data"), byte(2, lab="v"), seg("code"), instr("lds", R(16), E(sym("v")))]))
     P.append(("dir.device20", [line("device", n="ATtiny20"), instr("lds", R(16), E(0x45)), instr("rjmp", E(0))]))
